@@ -136,6 +136,14 @@ func nonce(n int) string { return encoder.EncodeToString(verifrt.AnyBytes("nonce
 // 26 reveal mismatch, 27 missing suffix, 28 missing signed data, 29 reveal with unconfigured algorithm
 func mutateKey(m int, k *gen.Signer, p *protocol.Protocol) bool {
 	switch m {
+	case 32: // a key that is well-formed but names no curve (RSA members): not on an allowed curve
+		k.JWK = &jws.JWK{Kty: "RSA", N: verifrt.AnyAtom("rsa-n"), E: "AQAB"}
+		return false
+	case 33: // a key on a curve outside the allowed list, the list itself unchanged
+		cp := *k.JWK
+		cp.Crv = "P-384"
+		k.JWK = &cp
+		return false
 	case 23:
 		p.KeyAlgorithms = []string{"Ed25519", "secp256k1"}
 		return false
@@ -204,7 +212,7 @@ func signedTail(m int, reveal *string, suffix *string, signedData *string, k *jw
 	return true
 }
 
-var signedMutations = []int{20, 21, 22, 23, 24, 25, 26, 27, 28, 29, 30, 31}
+var signedMutations = []int{20, 21, 22, 23, 24, 25, 26, 27, 28, 29, 30, 31, 32, 33}
 
 // Harness_C07_Update: update requests; also the (from, until) pair handed to the time validator (C09).
 func Harness_C07_Update() {
